@@ -24,5 +24,6 @@ InBounds(x, lo, hi) == FLe(lo, x) /\ FLe(x, hi)
 Integral(p, lo, hi) ==
     LET q == FSub(FOne, p) IN
     IF FEq(q, FZero) THEN FMul(Ln10, FSub(hi, lo))
-    ELSE FDiv(FSub(FPow(FInt(10), FMul(q, hi)), FPow(FInt(10), FMul(q, lo))), q)
+    ELSE (* 10^(q hi) - 10^(q lo) = 10^(q lo) expm1(s (hi - lo)): no cancellation for narrow ranges or indices next to 1 *)
+         FDiv(FMul(FPow(FInt(10), FMul(q, lo)), FExpm1(FMul(S(p), FSub(hi, lo)))), q)
 =============================================================================
